@@ -533,7 +533,7 @@ pub fn run(tier: Tier) -> i32 {
     let mut rep = Report::new("C12", tier);
     rep.rule("M1: every sequence of public API calls up to depth D on a RenetServer with a remote id and a local-client id (add/remove connection, disconnect, disconnect_all, new/disconnect/process local client, send in/over budget, broadcast, receive, process_packet_from valid / invalid channel / garbage / over-budget slice, update, get_packets_to_send) and on a stand-alone RenetClient (set_connected/connecting, disconnect, disconnect_due_to_transport, process_packet variants, send in/over budget, receive, update, flush); oracle in every state: a disconnected connection stays disconnected with the same reason, emits no packets, yields no messages, accepts no input (probed on a clone), transport status calls do not revive it; the event stream per id alternates Connected/Disconnected starting with Connected, and each ClientDisconnected carries the reason the connection first showed (Transport if healthy)");
     rep.assume("symmetric channel configuration (local clients are built with the server's channel perspective); events are consumed after every call, in order");
-    let d = tier.pick(6, 8);
+    let d = tier.pick(7, 9);
     let cfg = DfsCfg {
         depth: d,
         threads: explore::threads(),
@@ -549,7 +549,7 @@ pub fn run(tier: Tier) -> i32 {
     let mut c = RenetClient::new(config());
     c.set_connecting();
     let cw = ClientWorld { c, first: None, next_seq: 0, flags: 0 };
-    let d2 = tier.pick(8, 10);
+    let d2 = tier.pick(9, 12);
     let cfg2 = DfsCfg { depth: d2, ..cfg };
     let r2 = explore::dfs(&cw, &cfg2);
     rep.add_dfs("client-api", 1, d2, &r2);
